@@ -75,6 +75,8 @@ func exact(b []byte) []byte { // capacity == length, as the models assume
 
 var stub *datastore.Data // a data instance whose id is set per call
 
+func stubFor(i uint32) { stub.SetInstanceID(dvid.InstanceID(i)) }
+
 func ctxFor(i, v uint32) *datastore.VersionedCtx {
 	stub.SetInstanceID(dvid.InstanceID(i))
 	return datastore.NewVersionedCtx(stub, dvid.VersionID(v))
@@ -244,6 +246,15 @@ func main() {
 		p := parseKey(exact(upd), false)
 		term := fmt.Sprintf("(CKeyLite %d %d %d %s %s %s)", i, v, c, lib.CoqBytes(tk), resBytes(ucls, upd), coqIDs(p.idsCls, p.ids))
 		run.Add(kind, term, jcase{Kind: "keylite", I: i, V: v, C: c, TK: tk}, fmt.Sprintf("key/%d/%d/%d/%x", i, v, c, tk))
+	}
+	addUpdTomb := func(i0, v0, i, v, c uint32, tk []byte) {
+		tomb := []byte(ctxFor(i0, v0).TombstoneKey(storage.TKey(tk)))
+		ucls, upd := update(tomb, i, v, c)
+		p := parseKey(exact(upd), false)
+		ist := ucls == "ok" && storage.Key(upd).IsTombstone()
+		term := fmt.Sprintf("(CUpdTomb %d %d %d %d %d %s %s %s %s %s)", i0, v0, i, v, c, lib.CoqBytes(tk), resBytes(ucls, upd), lib.CoqBool(ist),
+			coqIDs(p.idsCls, p.ids), resBytes(p.tkCls, p.tk))
+		run.Add("update-tombstone", term, jcase{Kind: "updtomb", I: i, V: v, C: c, TK: tk, N: int(i0), Seed: uint64(v0)}, fmt.Sprintf("updtomb/%d/%d/%d/%x", i, v, c, tk))
 	}
 	addRange := func(i uint32, cls uint8) {
 		ctx := ctxFor(i, 1)
@@ -569,7 +580,7 @@ func main() {
 	}
 
 	histN := 0
-	addHist := func(seed uint64, wrap bool) {
+	addHist := func(seed uint64, wrap bool, lifecycle bool) {
 		r := lib.NewRand(seed)
 		wipeData()
 		histN++
@@ -591,7 +602,19 @@ func main() {
 				panic(err)
 			}
 			names[slot], ids[slot] = name, uint32(d.InstanceID())
-			steps = append(steps, fmt.Sprintf("HNew %d%%nat %d", slot, d.InstanceID()))
+			// right after creation nothing may be stored under the new id
+			empty := true
+			stubFor(uint32(d.InstanceID()))
+			lo, hi := storage.NewDataContext(stub, 0).KeyRange()
+			for _, kv := range dumpData() {
+				if bytes.Compare(kv.K, lo) >= 0 && bytes.Compare(kv.K, hi) < 0 {
+					empty = false
+				}
+			}
+			if kr := dv.Get("/api/node/" + root + "/" + name + "/keys"); kr.Status != 200 || strings.TrimSpace(string(kr.Body)) != "[]" {
+				empty = false
+			}
+			steps = append(steps, fmt.Sprintf("HNew %d%%nat %d %s", slot, d.InstanceID(), lib.CoqBool(empty)))
 		}
 		keyURL := func(slot int, k []byte) string {
 			return "/api/node/" + root + "/" + names[slot] + "/key/" + url.PathEscape(string(k))
@@ -609,12 +632,56 @@ func main() {
 			}
 			time.Sleep(40 * time.Millisecond)
 		}
+		instKVs := func(id uint32) []*storage.KeyValue {
+			stubFor(id)
+			lo, hi := storage.NewDataContext(stub, 0).KeyRange()
+			var l []*storage.KeyValue
+			for _, kv := range dumpData() {
+				if bytes.Compare(kv.K, lo) >= 0 && bytes.Compare(kv.K, hi) < 0 {
+					l = append(l, kv)
+				}
+			}
+			return l
+		}
+		// the key-values go after the metadata: give the deletion goroutine time to finish
+		waitKeysGone := func(id uint32) {
+			for n := 0; n < 400 && len(instKVs(id)) > 0; n++ {
+				time.Sleep(5 * time.Millisecond)
+			}
+		}
 		drop := func(slot int) {
 			if err := datastore.DeleteDataByName(dvid.UUID(root), dvid.InstanceName(names[slot]), ""); err != nil {
 				panic(err)
 			}
 			waitGone(names[slot])
+			waitKeysGone(ids[slot])
 			steps = append(steps, fmt.Sprintf("HDrop %d%%nat", slot))
+		}
+		// An interrupted deletion: repoT.deleteData saves the repo without the instance and the process
+		// dies before storage.DeleteDataInstance has removed the key-values.  The state is produced by
+		// letting the deletion complete and putting the instance's key-values back (RawPut).
+		crashDrop := func(slot int) {
+			kvs := instKVs(ids[slot])
+			if err := datastore.DeleteDataByName(dvid.UUID(root), dvid.InstanceName(names[slot]), ""); err != nil {
+				panic(err)
+			}
+			waitGone(names[slot])
+			waitKeysGone(ids[slot])
+			for _, kv := range kvs {
+				if err := kvdb().RawPut(kv.K, kv.V); err != nil {
+					panic(err)
+				}
+			}
+			steps = append(steps, fmt.Sprintf("HCrashDrop %d%%nat", slot))
+		}
+		restart := func() {
+			datastore.CloseReopenTest()
+			var err error
+			stub, err = datastore.NewDataService(keyvalue.NewType(), dvid.UUID(root), 7, "stub", dvid.NewConfig())
+			if err != nil {
+				panic(err)
+			}
+			steps = append(steps, "HRestart")
 		}
 		corpus := [][]byte{[]byte("a"), []byte("ab"), []byte("b"), []byte("a\x00b"), []byte("a\x00"), []byte("zz z"), []byte("\xc3\xa9"), []byte("k%41")}
 		view := func(slot int) string {
@@ -645,9 +712,68 @@ func main() {
 			return "(" + ks + ", [" + strings.Join(gs, "; ") + "])"
 		}
 		sfx := fmt.Sprintf("%d", histN)
+		ctr := 0
+		writes := func(count int, slots []int) {
+			for n := 0; n < count; n++ {
+				slot := slots[r.Intn(len(slots))]
+				k := corpus[r.Intn(len(corpus))]
+				if r.Chance(0.25) {
+					resp := dv.Delete(keyURL(slot, k))
+					steps = append(steps, fmt.Sprintf("HDel %d%%nat %s %s", slot, lib.CoqBytes(k), lib.CoqBool(resp.Status == 200)))
+				} else {
+					ctr++
+					body := []byte{byte('A' + slot), byte(ctr)}
+					resp := dv.Post(keyURL(slot, k), body)
+					steps = append(steps, fmt.Sprintf("HPost %d%%nat %s %s %s", slot, lib.CoqBytes(k), lib.CoqBytes(body), lib.CoqBool(resp.Status == 200)))
+				}
+			}
+		}
+		if lifecycle {
+			// instance life cycle with restarts: the instance with the highest id is deleted and its
+			// deletion interrupted, another one is deleted completely, the server restarts, new
+			// instances are created (one under the name of the interrupted one)
+			for j, nm := range []string{"A", "B", "C", "D"} {
+				newInst(j, nm+sfx)
+			}
+			writes(12+r.Intn(6), []int{0, 1, 2, 3})
+			ctr++
+			dv.Post(keyURL(3, corpus[0]), []byte{'D', byte(ctr)}) // the doomed instance holds something
+			steps = append(steps, fmt.Sprintf("HPost 3%%nat %s %s true", lib.CoqBytes(corpus[0]), lib.CoqBytes([]byte{'D', byte(ctr)})))
+			before := view(1)
+			if r.Bool() {
+				drop(2)
+				crashDrop(3)
+			} else {
+				crashDrop(3)
+				drop(2)
+			}
+			restart()
+			after := view(1)
+			newInst(4, "E"+sfx)
+			writes(4, []int{0, 4})
+			if r.Bool() {
+				restart()
+			}
+			newInst(5, "D"+sfx) // the name of the instance whose deletion was interrupted
+			anew := view(5)
+			var keys [][]byte
+			for _, kv := range dumpData() {
+				keys = append(keys, kv.K)
+			}
+			for _, nm := range []string{"A", "B", "E", "D"} {
+				if datastore.DeleteDataByName(dvid.UUID(root), dvid.InstanceName(nm+sfx), "") == nil {
+					waitGone(nm + sfx)
+				}
+			}
+			time.Sleep(100 * time.Millisecond)
+			wipeData()
+			term := fmt.Sprintf("(CHist %d\n   [%s]\n   %s\n   %s\n   %s\n   %s)", rootV, strings.Join(steps, "; "), coqKeys(keys), before, after, anew)
+			run.Count("hist-lifecycle")
+			run.Add("history", term, jcase{Kind: "hist", Seed: seed, Shape: "lifecycle"}, fmt.Sprintf("hist/%d/lifecycle", seed))
+			return
+		}
 		newInst(0, "A"+sfx)
 		newInst(1, "B"+sfx)
-		ctr := 0
 		for n := 0; n < 14+r.Intn(10); n++ {
 			slot := r.Intn(2)
 			k := corpus[r.Intn(len(corpus))]
@@ -702,6 +828,8 @@ func main() {
 			addKey("key", c.I, c.V, c.C, c.TK)
 		case "keylite":
 			addKeyLite("key-cube", c.I, c.V, c.C, c.TK)
+		case "updtomb":
+			addUpdTomb(uint32(c.N), uint32(c.Seed), c.I, c.V, c.C, c.TK)
 		case "range":
 			addRange(c.I, c.Cls)
 		case "parse":
@@ -715,7 +843,7 @@ func main() {
 		case "store":
 			addStore(c.Shape, c.Seed)
 		case "hist":
-			addHist(c.Seed, c.Nil)
+			addHist(c.Seed, c.Nil, c.Shape == "lifecycle")
 		}
 		run.Finish("c06case", "replay", tail)
 		shutdown()
@@ -770,6 +898,11 @@ func main() {
 			return uint32(rng.U64())
 		}
 		addKey("key-random", pick(), pick(), pick(), tk)
+	}
+	// a tombstone key stays a tombstone key when its ids are rewritten (push / copy remap ids this way)
+	for n, tk := range corpus {
+		addUpdTomb(grid[n%len(grid)], 1, grid[(n+3)%len(grid)], grid[(n+5)%len(grid)], grid[(n+1)%len(grid)], tk)
+		addUpdTomb(uint32(rng.U64()), uint32(rng.U64()), uint32(rng.U64()), uint32(rng.U64()), uint32(rng.U64()), tk)
 	}
 	for _, i := range grid {
 		for _, cls := range []uint8{0, 1, 177, 255} {
@@ -847,15 +980,23 @@ func main() {
 		nH = 20
 	}
 	for n := 0; n < nH; n++ {
-		addHist(rng.U64(), false)
+		addHist(rng.U64(), false, false)
 	}
 	for n := 0; n < 1+nH/3; n++ {
-		addHist(rng.U64(), true)
+		addHist(rng.U64(), true, false)
+	}
+	// life cycles with restarts last: a restart replaces the store objects the earlier sections hold
+	nL := 2
+	if thorough {
+		nL = 8
+	}
+	for n := 0; n < nL; n++ {
+		addHist(rng.U64(), false, true)
 	}
 	run.Extra["grid"] = grid
 	run.Extra["digest_points_per_case"] = 49*4 + 343
 	run.Finish("c06case",
-		"boundary grid {0,1,255,256,2^31,2^32-2,2^32-1}^3 literally with one TKey, per axis with the TKey corpus (empty, 0x00/0xFF runs, prefix pairs, datatype keys), the whole cube x corpus by digest, random ids/TKeys; malformed keys; datatype constructors; RawRangeQuery order on badger; storage-level drop/DeleteAll/prefix/mixed scenarios over neighbouring instance ids; HTTP A/B histories with deletion and re-creation incl. instance ids wrapping at 2^32; distinct by (kind, inputs)",
+		"boundary grid {0,1,255,256,2^31,2^32-2,2^32-1}^3 literally with one TKey, per axis with the TKey corpus (empty, 0x00/0xFF runs, prefix pairs, datatype keys), the whole cube x corpus by digest, random ids/TKeys; malformed keys; datatype constructors; RawRangeQuery order on badger; storage-level drop/DeleteAll/prefix/mixed scenarios over neighbouring instance ids; HTTP A/B histories with deletion and re-creation incl. instance ids wrapping at 2^32; instance life cycles with restarts (complete and interrupted deletion of the highest id, re-creation under the same name, emptiness of every new instance by raw dump); distinct by (kind, inputs)",
 		tail)
 }
 
